@@ -372,6 +372,7 @@ def _ko_job(job):
 def check_klatt_open(prop, tier):
     import random
     res = common.Result(prop)
+    res.level = "exploration"          # no model is explored here: recorded opens are judged by the trace specification only
     work = common.scratch()
     n = {"quick": 400, "thorough": 8000}[tier]
     try:
